@@ -85,7 +85,9 @@ def run(ctx, replay=None):
     ctx.model_check("Upload", "Upload", workers=4, args=["-dump", "dot,actionlabels", dot])
     ctx.model_check("DavConc", "DavConc", workers=8)
     if not q:
+        # three clients with at most four requests in total (measured: 6.1 M states, about 1 min); two clients with deeper own subtrees
         ctx.model_check("DavConc", "DavConc3", workers=8, timeout=3000)
+        ctx.model_check("DavConc", "DavConcDeep", workers=8, timeout=3000)
     nodes, edges, init = upgraph.parse(dot + ".dot")
     scripts, cov, tot = upgraph.cover(nodes, edges, init, ctx.seed)
     tot = len({(u, a, v) for u in edges for a, v in edges[u] if u != v})
